@@ -221,7 +221,11 @@ def rule_rpt_queue(prog):
     takes = [bi for bi, t in f.calls() if _short(t) == "take" and t["args"] and (root_desc(f, t["args"][0]) or "").endswith(".rpt_action")]
     rec = [(bi, t) for bi, t in f.calls() if norm_name(callee_name(t) or "") == f.norm and any(f.dominates(tb, bi) for tb in takes)]
     if not takes or not rec:
-        res.viol("anchor", f.loc, "the Repeat arm (rpt_action.take() followed by a recursive do_action) was not found")
+        res.inst("repeat-arm-takes-the-action", where=f.loc, ok=False)
+        res.oblige(False)
+        res.viol("repeat-arm-takes-the-action", f.loc,
+                 "the Repeat arm of do_action does not take the action out of rpt_action (Option::take) before it runs it: an action that "
+                 "contains rpt-any, e.g. (multi rpt-any b), finds itself in rpt_action and recurses until the stack overflows")
         return res
     rb, rt = rec[0]
     # (1) a dominating test of a bool field, one outcome of which cannot reach the recursive call
